@@ -11,7 +11,7 @@
 From V Require Import lib.Base lib.Utf8 model.GoStrings model.Html model.HtmlUnescape model.Url model.UrlProc
      model.UrlSet model.TContext model.TSanitize model.TSanitizers.
 From V Require Import spec.HtmlSpec spec.WhatwgUrl spec.Srcset spec.SanitizerSpec spec.CodeContextSpec
-     spec.CodeContextPolicy proofs.CodeContextFacts proofs.LinkRelFacts.
+     spec.CodeContextPolicy proofs.CodeContextFacts proofs.LinkRelFacts proofs.LinkRelFullFacts.
 From V Require Import gen.GenPolicy.
 Local Open Scope N_scope.
 
@@ -68,8 +68,9 @@ Definition C02_no_code_context_full_statement : Prop :=
     code_loading_url_attr e a rel = true -> sc_for_attr_val e a rel = Some sc ->
     sc_sanitizer_name sc = B "_sanitizeTrustedResourceURL" /\ sc_is_url sc = true.
 
-(* ... is false of the faithful model (finding D3, props/C02_findings.v); what holds: it does unless
-   the element is a link whose rel carries a token of the allow-list *)
+(* ... WAS false of the faithful model (finding D3); since the repair (fix: allow a URL in a link element's
+   href only if every rel value is allow-listed) it is the theorem C02_no_code_context at the end of this
+   file.  The weaker form that held before the repair: *)
 Theorem C02_no_code_context_partial : forall e a rel sc,
   code_loading_url_attr e a rel = true ->
   (e = B "link" -> rel_has_url_token rel = false) ->
@@ -179,3 +180,14 @@ Theorem C02_link_href_url_only_if_all_listed : forall rel,
   fields rel <> [] /\ forall v, In v (fields rel) -> mem_bytes v P_urlLinkRelVals = true.
 Proof. exact link_href_url_only_if_all_listed. Qed.
 Print Assumptions C02_link_href_url_only_if_all_listed.
+
+(* (f) the FULL statement about URLs that load code or style sheets (it was refuted by finding D3 before the
+   repair): for ALL element names, attribute names and rel values - the rel value read as the HTML standard
+   reads it (split on ASCII white space, ASCII case-insensitive), the engine reading it with strings.Fields -
+   whenever the standard makes (element, attribute, rel) a code-loading URL, the engine's sanitization context
+   is TrustedResourceURL *)
+Theorem C02_no_code_context : forall e a rel sc,
+  code_loading_url_attr e a rel = true -> sc_for_attr_val e a rel = Some sc ->
+  sc_sanitizer_name sc = B "_sanitizeTrustedResourceURL" /\ sc_is_url sc = true.
+Proof. exact code_loading_full. Qed.
+Print Assumptions C02_no_code_context.
